@@ -896,6 +896,36 @@ class RegistryEngine:
                     self.prop, "M5", f"raises:{type(e).__name__}", feats,
                     f"get_initial_fit_parameters raised "
                     f"{type(e).__name__}: {e}", i)
+        # the same through the other public routes: the guess function and
+        # a fitter given the model key, on a curve that was never told
+        # about this model
+        import nanite.fit as nfit
+        idnt_b = curves.make_curve(cfg)
+        with warnings.catch_warnings():
+            warnings.simplefilter("ignore")
+            idnt_b.apply_preprocessing(["compute_tip_position",
+                                        "correct_force_offset",
+                                        "correct_tip_offset"])
+            try:
+                pg = nfit.guess_initial_parameters(idnt=idnt_b,
+                                                   model_key=key)
+                pf_ = nfit.IndentationFitter(
+                    idnt_b, model_key=key).fp["params_initial"]
+            except _caught() as e:
+                return make_violation(
+                    self.prop, "M5", f"raises:{type(e).__name__}", feats,
+                    f"guess_initial_parameters / IndentationFitter with "
+                    f"model_key raised {type(e).__name__}: {e}", i)
+        for route, q in (("guess_initial_parameters", pg),
+                         ("IndentationFitter", pf_)):
+            for k in KEYS:
+                if q[k].value != p[k].value:
+                    return make_violation(
+                        self.prop, "M5", f"seed-{k}:route",
+                        dict(feats, route=route),
+                        f"{route}(model_key={key!r}) starts {k} at "
+                        f"{q[k].value}, get_initial_fit_parameters at "
+                        f"{p[k].value}", i)
         anc = eff_anc(spec)
         want_E = 3e3
         if anc and anc["E"] == "data":
